@@ -36,14 +36,24 @@ try:
             meta["suite_failures"] = failed
             meta["suite_matches_baseline"] = bool(m and m.group(1) == "2" and m.group(2) == "291" and m.group(3) == "1")
         props = [p for p in props if not p.startswith("--")]
-        for p in props:
-            t0 = time.time()
-            c = sh("{}/check {} --no-evidence".format(os.environ.get("VERIF_CHECK_DIR", VERIF), p), env=dict(os.environ, VERIF_REPO=wt))
-            line = [l for l in c.stdout.splitlines() if l.startswith("violation:")]
-            meta["ran"].append({"cmd": "VERIF_REPO=<scratch worktree with patch> ./check {} --no-evidence".format(p),
-                                "exit": c.returncode, "wall_s": round(time.time() - t0, 1),
-                                "violations": [l[:300] for l in line[:4]],
-                                "tail": c.stdout[-300:] if c.returncode not in (0, 1) else ""})
+        def runchecks(cdir):
+            out = []
+            for p in props:
+                t0 = time.time()
+                c = sh("{}/check {} --no-evidence".format(cdir, p), env=dict(os.environ, VERIF_REPO=wt))
+                line = [l for l in c.stdout.splitlines() if l.startswith("violation:")]
+                out.append({"cmd": "VERIF_REPO=<scratch worktree with patch> ./check {} --no-evidence".format(p),
+                            "exit": c.returncode, "wall_s": round(time.time() - t0, 1),
+                            "violations": [l[:300] for l in line[:4]],
+                            "tail": c.stdout[-300:] if c.returncode not in (0, 1) else ""})
+            return out
+        meta["ran"] = runchecks(os.environ.get("VERIF_CHECK_DIR", VERIF))
+        if os.environ.get("VERIF_OLD_CHECK_DIR"):
+            # the checks as they stood before this round (a worktree of /verif at an earlier commit)
+            old = runchecks(os.environ["VERIF_OLD_CHECK_DIR"])
+            if [r["exit"] for r in old] != [r["exit"] for r in meta["ran"]]:
+                meta["ran_before_strengthening"] = old
+            meta["old_checks_commit"] = os.environ.get("VERIF_OLD_COMMIT", "")
     out = os.path.join(VERIF, "seeded", sid)
     os.makedirs(out, exist_ok=True)
     shutil.copy(diff, os.path.join(out, "patch.diff"))
